@@ -57,3 +57,17 @@ package utils
 //@   modifies cache.cache, mapof(cache.cache), cache.currentCacheSize
 //@   ensures[deleted] seq: cache.cache != nil && !in(key, cache.cache)
 //@   ensures[others-untouched] seq: old(cache.cache) != nil ==> cache.cache == old(cache.cache) && forall(k, K, k != key ==> (in(k, cache.cache) <==> old(in(k, cache.cache))) && cache.cache[k] == old(cache.cache[k]))
+
+// ---------------------------------------------------------------- header merge (C07): union, the second map wins on conflict
+//@ ghost func mergedOf(r map[string]string, a map[string]string, b map[string]string) bool = r != nil && forall(k, string, (in(k, r) <==> in(k, a) || in(k, b)) && (in(k, r) ==> r[k] == ite(in(k, b), b[k], a[k])))
+
+//@ func MergeHeaders
+//@   prop C07
+//@   allocates map
+//@   modifies nothing
+//@   loop 1 modifies mapof(mergedHeaders)
+//@   loop 1 invariant[first-pass] forall(k, string, (in(k, mergedHeaders) <==> seen1[k] && !in(k, secondHeaders)) && (in(k, mergedHeaders) ==> mergedHeaders[k] == firstHeaders[k]))
+//@   loop 2 modifies mapof(mergedHeaders)
+//@   loop 2 invariant[second-pass] forall(k, string, (in(k, mergedHeaders) <==> (in(k, firstHeaders) && !in(k, secondHeaders)) || seen2[k]) && (seen2[k] ==> mergedHeaders[k] == secondHeaders[k]) && (in(k, mergedHeaders) && !seen2[k] ==> mergedHeaders[k] == firstHeaders[k]))
+//@   ensures[fresh]  result != nil && !old(allocated(result))
+//@   ensures[merged] mergedOf(result, firstHeaders, secondHeaders)
